@@ -29,6 +29,8 @@
 #ifndef VF_REPLAY
 #include "contracts/ec_bn_stubs.h"
 
+#define VF_CURVE_IN_EC(curve)	(VF_EC_CURVE_OK(curve) && VF_EC_CURVE_WF(*curve))
+
 /* role-dependent ghost clauses */
 #define VF_EC_ENFORCED_GHOST								\
 	__CPROVER_requires(!vf_ec_fail)							\
@@ -55,6 +57,12 @@ __CPROVER_requires(VF_EC_POINT_OK(res) && VF_EC_POINT_WF(*res))
 __CPROVER_assigns(VF_EC_POINT_FRAME(res))
 VF_G_mult_bp
 __CPROVER_ensures(__CPROVER_return_value == 0 ==> VF_EC_POINT_WF(*res))
+#if defined(VF_ENFORCE_ec_point_mult_bp) && EC_PF_FXP_MULT_ALGO != EC_PF_FXP_MULT_ALGO_BIN
+/* dispatch: exactly one call of the fixed-point multiplier, on res, with the caller's scalar and the
+ * curve's precomputed base-point table */
+__CPROVER_ensures(__CPROVER_return_value == 0 ==> (vf_n_pop == 1 && vf_pop_fn == VF_POP_fpx_mult_affine && vf_st_pop == 0 &&
+    vf_pop_a == VF_ID(res) && vf_pop_b == VF_ID(d) && vf_pop_c == VF_ID(&curve->G_fpx_mult_data)))
+#endif
 ;
 
 /* res = Gd * G + bd * b */
@@ -75,6 +83,11 @@ __CPROVER_requires(VF_EC_POINT_OK(res) && VF_EC_POINT_WF(*res))
 __CPROVER_assigns(VF_EC_POINT_FRAME(res))
 VF_G_twin
 __CPROVER_ensures(__CPROVER_return_value == 0 ==> VF_EC_POINT_WF(*res))
+#if defined(VF_ENFORCE_ec_point_twin_mult_bp) && EC_PF_TWIN_MULT_ALGO != EC_PF_TWIN_MULT_ALGO_FXP_UNKPT
+/* dispatch: one twin multiplication with the curve's base point as first operand */
+__CPROVER_ensures(__CPROVER_return_value == 0 ==> (vf_n_pop == 1 && vf_pop_fn == VF_POP_twin_mult && vf_st_pop == 0 &&
+    vf_pop_a == VF_ID(&curve->G) && vf_pop_b == VF_ID(b) && vf_pop_c == VF_ID(res)))
+#endif
 ;
 
 /* point = d * point (in place) */
@@ -95,6 +108,11 @@ __CPROVER_requires(VF_EC_POINT_OK(point) && VF_EC_POINT_WF(*point))
 __CPROVER_assigns(VF_EC_POINT_FRAME(point))
 VF_G_unkpt
 __CPROVER_ensures(__CPROVER_return_value == 0 ==> VF_EC_POINT_WF(*point))
+#if defined(VF_ENFORCE_ec_point_unknown_pt_mult) && EC_PF_UNKPT_MULT_ALGO != EC_PF_UNKPT_MULT_ALGO_BIN
+/* dispatch: table precomputation for `point`, then one multiplication of `point` by the caller's scalar */
+__CPROVER_ensures(__CPROVER_return_value == 0 ==> (vf_n_pop == 2 && vf_pop_fn == VF_POP_unkpt_mult_affine && vf_st_pop == 0 &&
+    vf_pop_a == VF_ID(point) && vf_pop_b == VF_ID(d)))
+#endif
 ;
 
 /* ---------------------------------------------------------------- validation ---- */
@@ -113,6 +131,11 @@ ec_point_check_as_pub_key(ec_point_p point, ec_curve_p curve)
 __CPROVER_requires(VF_EC_CURVE_OK(curve) && VF_EC_CURVE_WF(*curve))
 __CPROVER_requires(VF_EC_POINT_OK(point) && VF_EC_POINT_WF(*point))
 VF_G_chk_pub
+#ifdef VF_ENFORCE_ec_point_check_as_pub_key
+/* accepted ==> the on-curve check AND the order check were each run once and returned 0 */
+__CPROVER_ensures(__CPROVER_return_value == 0 ==> (vf_n_chk_affine == 1 && vf_st_chk_affine == 0 &&
+    vf_n_chk_scalar == 1 && vf_st_chk_scalar == 0))
+#endif
 ;
 
 #ifdef VF_ENFORCE_ec_point_check_affine
@@ -131,6 +154,13 @@ __CPROVER_requires(VF_EC_POINT_OK(point) && VF_EC_POINT_WF(*point))
 VF_G_chk_affine
 __CPROVER_ensures((vf_bn_val(point->x) >= vf_bn_val(curve->p) || vf_bn_val(point->y) >= vf_bn_val(curve->p)) ==>
     __CPROVER_return_value != 0)
+#ifdef VF_ENFORCE_ec_point_check_affine
+/* accepted ==> the last comparison (y^2 against x^3 + a x + b) said "equal"; the a == p - 3 shortcut
+ * (3 x by bn_mod_mult_digit) is taken exactly when the curve carries EC_CURVE_FLAG_A_M3 */
+__CPROVER_ensures(__CPROVER_return_value == 0 ==> (vf_n_cmp == 3 && vf_cmp_r == 0))
+__CPROVER_ensures(__CPROVER_return_value == 0 ==> ((0 != (EC_CURVE_FLAG_A_M3 & curve->flags)) ?
+    (vf_n_mult_digit == 1 && vf_mult_digit_d == 3) : (vf_n_mult_digit == 0)))
+#endif
 ;
 
 #ifdef VF_ENFORCE_ec_point_check_scalar_mult
@@ -146,6 +176,15 @@ ec_point_check_scalar_mult(ec_point_p point, ec_curve_p curve)
 __CPROVER_requires(VF_EC_CURVE_OK(curve) && VF_EC_CURVE_WF(*curve))
 __CPROVER_requires(VF_EC_POINT_OK(point) && VF_EC_POINT_WF(*point))
 VF_G_chk_scalar
+#ifdef VF_ENFORCE_ec_point_check_scalar_mult
+/* accepted ==> a COPY of the point was multiplied by the group order n over the caller's curve, the
+ * multiplication succeeded and produced infinity; a finite product is rejected with -1 */
+__CPROVER_ensures(__CPROVER_return_value == 0 ==> (vf_n_unkpt == 1 && vf_st_unkpt == 0 && vf_unkpt_inf != 0 &&
+    vf_unkpt_d == VF_ID(&curve->n) && vf_unkpt_curve == VF_ID(curve) && vf_unkpt_point != VF_ID(point) &&
+    VF_ASSIGNED_FROM(vf_unkpt_point + offsetof(ec_point_t, x), VF_ID(&point->x)) &&
+    VF_ASSIGNED_FROM(vf_unkpt_point + offsetof(ec_point_t, y), VF_ID(&point->y))))
+__CPROVER_ensures((!vf_ec_fail && vf_n_unkpt == 1 && vf_unkpt_inf == 0) ==> __CPROVER_return_value == -1)
+#endif
 ;
 
 /* y := the root of x^3 + a x + b with the requested parity (y_is_odd 0 / 1; 2 = whichever
@@ -167,6 +206,334 @@ __CPROVER_requires(y_is_odd == 0 || y_is_odd == 1 || y_is_odd == 2)
 __CPROVER_assigns(VF_BN_FRAME(&point->y))
 VF_G_restore_y
 __CPROVER_ensures(__CPROVER_return_value == 0 ==> vf_bn_wf(point->y))
+#ifdef VF_ENFORCE_ec_point_restore_y_by_x
+/* requested parity 0 / 1: no internal failure is tolerated; parity 2 (auto) may retry with p - root
+ * after a failed validation of the first root */
+__CPROVER_ensures((__CPROVER_return_value == 0 && y_is_odd != 2) ==> !vf_ec_fail)
+__CPROVER_ensures(__CPROVER_return_value == 0 ==> ((0 != (EC_CURVE_FLAG_A_M3 & curve->flags)) ?
+    (vf_n_mult_digit == 1 && vf_mult_digit_d == 3) : (vf_n_mult_digit == 0)))
+#ifndef EC_DISABLE_PUB_KEY_CHK
+/* success ==> the returned point was validated: the last validation ran on it and returned 0 */
+__CPROVER_ensures(__CPROVER_return_value == 0 ==> (vf_n_chk_pub >= 1 && vf_st_chk_pub == 0 &&
+    vf_chk_pub_point == VF_ID(point) && vf_chk_pub_curve == VF_ID(curve)))
+#endif
+#endif
+;
+
+/* ================================================================== C02: point arithmetic ==== */
+/* Jacobian point: three well-formed numbers; infinity <=> z == 0 (digits == 0) */
+#define VF_EC_PP_OK(p)		(__CPROVER_rw_ok((p), sizeof(ec_point_proj_t)))
+#define VF_EC_PP_ROK(p)		(__CPROVER_r_ok((p), sizeof(ec_point_proj_t)))
+#define VF_EC_PP_WF(pp)		(vf_bn_wf((pp).x) && vf_bn_wf((pp).y) && vf_bn_wf((pp).z))
+#define VF_EC_PP_INF(p)		((p)->z.digits == 0)
+#define VF_EC_PP_INF_OLD(p)	(__CPROVER_old((p)->z.digits) == 0)
+#define VF_EC_PP_FRAME(p)	VF_BN_FRAME(&(p)->x), VF_BN_FRAME(&(p)->y), VF_BN_FRAME(&(p)->z)
+#define VF_EC_PP_SAME(p, q)	(vf_bn_val((p)->x) == vf_bn_val((q)->x) && vf_bn_val((p)->y) == vf_bn_val((q)->y) &&	\
+	vf_bn_val((p)->z) == vf_bn_val((q)->z))
+/* ghost clauses of a point operation used as a replaced callee */
+#define VF_POP_CALLEE(id, A, B, C)							\
+	__CPROVER_assigns(VF_EC_STATUS_ASSIGNS, vf_g.pop)				\
+	__CPROVER_ensures(VF_EC_STATUS_ENSURES)						\
+	__CPROVER_ensures(vf_st_pop == __CPROVER_return_value && vf_n_pop == __CPROVER_old(vf_n_pop) + 1u &&	\
+	    vf_pop_fn == (id) && vf_pop_a == VF_ID(A) && vf_pop_b == VF_ID(B) && vf_pop_c == (unsigned long)(C))
+
+/* a := (b.x, b.y, 1) or (0, 0, 0) for infinity */
+#ifdef VF_ENFORCE_ec_point_proj_import_affine
+#define VF_G_import_affine	VF_EC_ENFORCED_GHOST
+#else
+#define VF_G_import_affine	VF_POP_CALLEE(VF_POP_import_affine, a, b, 0)
+#endif
+static inline int
+ec_point_proj_import_affine(ec_point_proj_p a, ec_point_p b, ec_curve_p curve)
+__CPROVER_requires(VF_EC_PP_OK(a) && VF_BN_CNT_OK(&a->x) && VF_BN_CNT_OK(&a->y) && VF_BN_CNT_OK(&a->z))
+__CPROVER_requires(__CPROVER_r_ok(b, sizeof(ec_point_t)) && VF_EC_POINT_WF(*b) && VF_EC_CURVE_OK(curve))
+__CPROVER_assigns(VF_EC_PP_FRAME(a))
+VF_G_import_affine
+__CPROVER_ensures(__CPROVER_return_value == 0 ==> VF_EC_PP_WF(*a))
+__CPROVER_ensures(__CPROVER_return_value == 0 ==> (VF_EC_PP_INF(a) == (b->infinity != 0)))
+__CPROVER_ensures((__CPROVER_return_value == 0 && b->infinity == 0) ==>
+    (vf_bn_val(a->x) == vf_bn_val(b->x) && vf_bn_val(a->y) == vf_bn_val(b->y) && vf_bn_val(a->z) == 1))
+;
+
+/* point := (x / z^2, y / z^3, 1); infinity and z == 1 are left alone */
+#ifdef VF_ENFORCE_ec_point_proj_norm
+#define VF_G_norm	VF_EC_ENFORCED_GHOST
+#else
+#define VF_G_norm	VF_POP_CALLEE(VF_POP_norm, point, curve, 0)
+#endif
+static inline int
+ec_point_proj_norm(ec_point_proj_p point, ec_curve_p curve)
+__CPROVER_requires(VF_EC_PP_OK(point) && VF_EC_PP_WF(*point) && VF_CURVE_IN_EC(curve))
+__CPROVER_assigns(!VF_EC_PP_INF(point): VF_EC_PP_FRAME(point))
+VF_G_norm
+__CPROVER_ensures(__CPROVER_return_value == 0 ==> VF_EC_PP_WF(*point))
+__CPROVER_ensures(VF_EC_PP_INF_OLD(point) ==> (__CPROVER_return_value == 0 && VF_EC_PP_INF(point)))
+__CPROVER_ensures((__CPROVER_return_value == 0 && !VF_EC_PP_INF_OLD(point)) ==> vf_bn_val(point->z) == 1)
+;
+
+/* b := affine(a); a is normalised on the way (as coded); infinity only sets b's flag */
+#ifdef VF_ENFORCE_ec_point_proj_export_affine
+#define VF_G_export_affine	VF_EC_ENFORCED_GHOST
+#else
+#define VF_G_export_affine	VF_POP_CALLEE(VF_POP_export_affine, a, b, 0)
+#endif
+static inline int
+ec_point_proj_export_affine(ec_point_proj_p a, ec_point_p b, ec_curve_p curve)
+__CPROVER_requires(VF_EC_PP_OK(a) && VF_EC_PP_WF(*a) && VF_CURVE_IN_EC(curve))
+__CPROVER_requires(VF_EC_POINT_OK(b) && VF_EC_POINT_WF(*b))
+__CPROVER_assigns(!VF_EC_PP_INF(a): VF_EC_PP_FRAME(a), VF_BN_FRAME(&b->x), VF_BN_FRAME(&b->y))
+__CPROVER_assigns(b->infinity)
+VF_G_export_affine
+__CPROVER_ensures(__CPROVER_return_value == 0 ==> (VF_EC_POINT_WF(*b) && (b->infinity != 0) == VF_EC_PP_INF_OLD(a)))
+__CPROVER_ensures((__CPROVER_return_value == 0 && b->infinity == 0) ==>
+    (vf_bn_val(b->x) == vf_bn_val(a->x) && vf_bn_val(b->y) == vf_bn_val(a->y)))
+;
+
+/*
+ * a := a + b (Jacobian; a == b is the doubling call).  Exceptional-branch selection, stated over the
+ * values returned by the replaced field operations (first / second bn_cmp: A ? C, B ? D):
+ *    b == infinity                    a untouched (nothing is assigned), status 0
+ *    a == infinity                    a := b (value copy)
+ *    A != C                           general addition (no multiplication by 3)
+ *    A == C, B != D                   a := infinity (z := 0, x and y untouched), status 0
+ *    A == C, B == D  or  a == b       doubling: y == 0 -> infinity, else the doubling formula
+ *                                     (exactly one multiplication by 3)
+ */
+#ifdef VF_ENFORCE_ec_point_proj_add
+#define VF_G_padd	VF_EC_ENFORCED_GHOST
+#else
+#define VF_G_padd	VF_POP_CALLEE(VF_POP_add, a, b, 0)
+#endif
+static inline int
+ec_point_proj_add(ec_point_proj_p a, ec_point_proj_p b, ec_curve_p curve)
+__CPROVER_requires(VF_EC_PP_OK(a) && VF_EC_PP_WF(*a) && VF_EC_PP_ROK(b) && VF_EC_PP_WF(*b) && VF_CURVE_IN_EC(curve))
+__CPROVER_requires(a == b || !__CPROVER_same_object(a, b))
+__CPROVER_assigns(!VF_EC_PP_INF(b): VF_EC_PP_FRAME(a))
+VF_G_padd
+__CPROVER_ensures(__CPROVER_return_value == 0 ==> VF_EC_PP_WF(*a))
+__CPROVER_ensures(VF_EC_PP_INF_OLD(b) ==> __CPROVER_return_value == 0)
+#ifdef VF_ENFORCE_ec_point_proj_add
+__CPROVER_ensures((!VF_EC_PP_INF_OLD(b) && VF_EC_PP_INF_OLD(a) && __CPROVER_return_value == 0) ==>
+    VF_EC_PP_SAME(a, b))
+__CPROVER_ensures((!VF_EC_PP_INF_OLD(b) && !VF_EC_PP_INF_OLD(a) && a != b && !vf_ec_fail && vf_n_cmp >= 1 && vf_cmp_r0 != 0) ==>
+    (vf_n_cmp == 1 && vf_n_mult_digit3 == 0 && (__CPROVER_return_value != 0 || vf_n_assign >= 3)))
+__CPROVER_ensures((!VF_EC_PP_INF_OLD(b) && !VF_EC_PP_INF_OLD(a) && a != b && vf_n_cmp >= 2 && vf_cmp_r0 == 0 && vf_cmp_r1 != 0) ==>
+    (__CPROVER_return_value == 0 && VF_EC_PP_INF(a) && vf_n_mult_digit3 == 0 &&
+     vf_bn_val(a->x) == vf_bn_val(__CPROVER_old(a->x)) && vf_bn_val(a->y) == vf_bn_val(__CPROVER_old(a->y))))
+__CPROVER_ensures((!VF_EC_PP_INF_OLD(b) && !VF_EC_PP_INF_OLD(a) &&
+    (a == b || (vf_n_cmp >= 2 && vf_cmp_r0 == 0 && vf_cmp_r1 == 0)) && __CPROVER_return_value == 0) ==>
+    ((__CPROVER_old(a->y.digits) == 0) ? (VF_EC_PP_INF(a) && vf_n_mult_digit3 == 0) : (vf_n_mult_digit3 == 1)))
+__CPROVER_ensures((!VF_EC_PP_INF_OLD(b) && !VF_EC_PP_INF_OLD(a) && a == b) ==> vf_n_cmp == 0)
+#endif
+;
+
+/* a := a - b: b is negated into a temporary (p - b.y), then added */
+#ifdef VF_ENFORCE_ec_point_proj_sub
+#define VF_G_psub	VF_EC_ENFORCED_GHOST
+#else
+#define VF_G_psub	VF_POP_CALLEE(VF_POP_sub, a, b, 0)
+#endif
+static inline int
+ec_point_proj_sub(ec_point_proj_p a, ec_point_proj_p b, ec_curve_p curve)
+__CPROVER_requires(VF_EC_PP_OK(a) && VF_EC_PP_WF(*a) && VF_EC_PP_ROK(b) && VF_EC_PP_WF(*b) && VF_CURVE_IN_EC(curve))
+__CPROVER_requires(a == b || !__CPROVER_same_object(a, b))
+__CPROVER_assigns(VF_EC_PP_FRAME(a))
+VF_G_psub
+__CPROVER_ensures(__CPROVER_return_value == 0 ==> VF_EC_PP_WF(*a))
+#ifdef VF_ENFORCE_ec_point_proj_sub
+/* one addition, of a temporary that is neither a nor b */
+__CPROVER_ensures(__CPROVER_return_value == 0 ==> (vf_n_pop == 1 && vf_pop_fn == VF_POP_add && vf_st_pop == 0 &&
+    vf_pop_a == VF_ID(a) && vf_pop_b != VF_ID(a) && vf_pop_b != VF_ID(b)))
+/* the temporary is (b.x, p - b.y, b.z) */
+__CPROVER_ensures(__CPROVER_return_value == 0 ==> (
+    VF_ASSIGNED_FROM(vf_pop_b + offsetof(ec_point_proj_t, x), VF_ID(&b->x)) &&
+    VF_ASSIGNED_FROM(vf_pop_b + offsetof(ec_point_proj_t, y), VF_ID(&curve->p)) &&
+    VF_ASSIGNED_FROM(vf_pop_b + offsetof(ec_point_proj_t, z), VF_ID(&b->z))))
+#endif
+;
+
+/*
+ * a := a + b, b affine (mixed addition).  Branch selection:
+ *    b == infinity                    a untouched, status 0
+ *    a == infinity                    a := projective(b)                 (ec_point_proj_import_affine)
+ *    T1 == 0 (same x), T2 == 0        doubling: exactly one ec_point_proj_add(a, a)
+ *    T1 == 0, T2 != 0                 a := infinity (z := 0), status 0
+ *    otherwise                        the mixed-addition formula, no call of ec_point_proj_add
+ * T1, T2 are the results of the two bn_mod_sub calls; "== 0" is their digits == 0 (bn_is_zero, real).
+ */
+#ifdef VF_ENFORCE_ec_point_proj_add_mix
+#define VF_G_padd_mix	VF_EC_ENFORCED_GHOST
+#else
+#define VF_G_padd_mix	VF_POP_CALLEE(VF_POP_add_mix, a, b, 0)
+#endif
+static inline int
+ec_point_proj_add_mix(ec_point_proj_p a, ec_point_p b, ec_curve_p curve)
+__CPROVER_requires(VF_EC_PP_OK(a) && VF_EC_PP_WF(*a) && VF_CURVE_IN_EC(curve))
+__CPROVER_requires(__CPROVER_r_ok(b, sizeof(ec_point_t)) && VF_EC_POINT_WF(*b) && !__CPROVER_same_object(a, b))
+__CPROVER_assigns(b->infinity == 0: VF_EC_PP_FRAME(a))
+VF_G_padd_mix
+__CPROVER_ensures(__CPROVER_return_value == 0 ==> VF_EC_PP_WF(*a))
+__CPROVER_ensures(b->infinity != 0 ==> __CPROVER_return_value == 0)
+#ifdef VF_ENFORCE_ec_point_proj_add_mix
+__CPROVER_ensures((b->infinity == 0 && VF_EC_PP_INF_OLD(a) && __CPROVER_return_value == 0) ==>
+    (vf_n_pop == 1 && vf_pop_fn == VF_POP_import_affine && vf_st_pop == 0 && vf_pop_a == VF_ID(a) && vf_pop_b == VF_ID(b)))
+__CPROVER_ensures((b->infinity == 0 && !VF_EC_PP_INF_OLD(a) && __CPROVER_return_value == 0) ==>
+    (vf_n_pop == 0 || (vf_n_pop == 1 && vf_pop_fn == VF_POP_add && vf_st_pop == 0 && vf_pop_a == VF_ID(a) && vf_pop_b == VF_ID(a))))
+#endif
+;
+
+#ifdef VF_ENFORCE_ec_point_proj_sub_mix
+#define VF_G_psub_mix	VF_EC_ENFORCED_GHOST
+#else
+#define VF_G_psub_mix	VF_POP_CALLEE(VF_POP_sub_mix, a, b, 0)
+#endif
+static inline int
+ec_point_proj_sub_mix(ec_point_proj_p a, ec_point_p b, ec_curve_p curve)
+__CPROVER_requires(VF_EC_PP_OK(a) && VF_EC_PP_WF(*a) && VF_CURVE_IN_EC(curve))
+__CPROVER_requires(__CPROVER_r_ok(b, sizeof(ec_point_t)) && VF_EC_POINT_WF(*b) && !__CPROVER_same_object(a, b))
+__CPROVER_assigns(VF_EC_PP_FRAME(a))
+VF_G_psub_mix
+__CPROVER_ensures(__CPROVER_return_value == 0 ==> VF_EC_PP_WF(*a))
+#ifdef VF_ENFORCE_ec_point_proj_sub_mix
+__CPROVER_ensures(__CPROVER_return_value == 0 ==> (vf_n_pop == 1 && vf_pop_fn == VF_POP_add_mix && vf_st_pop == 0 &&
+    vf_pop_a == VF_ID(a) && vf_pop_b != VF_ID(b)))
+__CPROVER_ensures(__CPROVER_return_value == 0 ==> (
+    VF_ASSIGNED_FROM(vf_pop_b + offsetof(ec_point_t, x), VF_ID(&b->x)) &&
+    VF_ASSIGNED_FROM(vf_pop_b + offsetof(ec_point_t, y), VF_ID(&curve->p))))
+#endif
+;
+
+/* affine front ends (ec_point_add / ec_point_sub of the projective build):
+ * import a, mixed add/sub of b, export back into a */
+#define VF_AFFINE_BINOP_CONTRACT(fn, GHOST, MIXID)					\
+static inline int fn(ec_point_p a, ec_point_p b, ec_curve_p curve)			\
+__CPROVER_requires(VF_EC_POINT_OK(a) && VF_EC_POINT_WF(*a) && VF_CURVE_IN_EC(curve))	\
+__CPROVER_requires(__CPROVER_r_ok(b, sizeof(ec_point_t)) && VF_EC_POINT_WF(*b) && (a == b || !__CPROVER_same_object(a, b)))	\
+__CPROVER_assigns(VF_EC_POINT_FRAME(a))							\
+GHOST											\
+__CPROVER_ensures(__CPROVER_return_value == 0 ==> VF_EC_POINT_WF(*a))
+#ifdef VF_ENFORCE_ec_point_proj_add_affine
+VF_AFFINE_BINOP_CONTRACT(ec_point_proj_add_affine, VF_EC_ENFORCED_GHOST, VF_POP_add_mix)
+__CPROVER_ensures(__CPROVER_return_value == 0 ==> (vf_n_pop == 3 && vf_pop_fn == VF_POP_export_affine && vf_pop_b == VF_ID(a)))
+;
+#else
+VF_AFFINE_BINOP_CONTRACT(ec_point_proj_add_affine, VF_POP_CALLEE(VF_POP_add, a, b, 1), VF_POP_add_mix)
+;
+#endif
+#ifdef VF_ENFORCE_ec_point_proj_sub_affine
+VF_AFFINE_BINOP_CONTRACT(ec_point_proj_sub_affine, VF_EC_ENFORCED_GHOST, VF_POP_sub_mix)
+__CPROVER_ensures(__CPROVER_return_value == 0 ==> (vf_n_pop == 3 && vf_pop_fn == VF_POP_export_affine && vf_pop_b == VF_ID(a)))
+;
+#else
+VF_AFFINE_BINOP_CONTRACT(ec_point_proj_sub_affine, VF_POP_CALLEE(VF_POP_sub, a, b, 1), VF_POP_sub_mix)
+;
+#endif
+
+/* point equality / inverse tests (values are only compared) */
+static inline int
+ec_point_is_eq(ec_point_p a, ec_point_p b)
+__CPROVER_requires(a == NULL || (__CPROVER_r_ok(a, sizeof(ec_point_t)) && VF_EC_POINT_WF(*a)))
+__CPROVER_requires(b == NULL || (__CPROVER_r_ok(b, sizeof(ec_point_t)) && VF_EC_POINT_WF(*b)))
+__CPROVER_assigns(vf_g.cmp)
+__CPROVER_ensures(a == b ==> __CPROVER_return_value == 1)
+__CPROVER_ensures((a != b && (a == NULL || b == NULL)) ==> __CPROVER_return_value == 0)
+__CPROVER_ensures((a != NULL && b != NULL) ==> (__CPROVER_return_value == (
+    (a == b || (a->infinity != 0 && b->infinity != 0) ||
+     (a->infinity == 0 && b->infinity == 0 && vf_bn_val(a->x) == vf_bn_val(b->x) && vf_bn_val(a->y) == vf_bn_val(b->y))) ? 1 : 0)))
+;
+
+/* ================================================================== C02: multiplication dispatch ==== */
+/* the algorithm-level multipliers are ASSUMED callees here (ladders / comb tables are not proved):
+ * frame = the result point, any status, status 0 => well-formed coordinates */
+#if EC_PF_FXP_MULT_ALGO != EC_PF_FXP_MULT_ALGO_BIN
+#ifdef VF_ENFORCE_ec_point_proj_fpx_mult_affine
+#define VF_G_fpx_mult_affine	VF_EC_ENFORCED_GHOST
+#else
+#define VF_G_fpx_mult_affine	VF_POP_CALLEE(VF_POP_fpx_mult_affine, point, d, VF_ID(mult_data))
+#endif
+static inline int
+ec_point_proj_fpx_mult_affine(ec_point_p point, ec_point_proj_fpx_mult_data_t *mult_data, bn_p d, ec_curve_p curve)
+__CPROVER_requires(VF_EC_POINT_OK(point) && VF_EC_POINT_WF(*point) && VF_ECBN_R(d) && VF_CURVE_IN_EC(curve))
+__CPROVER_requires(__CPROVER_r_ok(mult_data, sizeof(ec_point_proj_fpx_mult_data_t)))
+__CPROVER_assigns(VF_EC_POINT_FRAME(point))
+VF_G_fpx_mult_affine
+__CPROVER_ensures(__CPROVER_return_value == 0 ==> VF_EC_POINT_WF(*point))
+#ifdef VF_ENFORCE_ec_point_proj_fpx_mult_affine
+__CPROVER_ensures(__CPROVER_return_value == 0 ==> (vf_n_pop == 2 && vf_pop_fn == VF_POP_export_affine && vf_pop_b == VF_ID(point)))
+#endif
+;
+/* point := d * (the point the table was built for) */
+static inline int
+ec_point_proj_fpx_mult(ec_point_proj_p point, ec_point_proj_fpx_mult_data_t *mult_data, bn_p d, ec_curve_p curve)
+__CPROVER_requires(VF_EC_PP_OK(point) && VF_EC_PP_WF(*point) && VF_ECBN_R(d) && VF_CURVE_IN_EC(curve))
+__CPROVER_requires(__CPROVER_r_ok(mult_data, sizeof(ec_point_proj_fpx_mult_data_t)))
+__CPROVER_assigns(VF_EC_PP_FRAME(point))
+VF_POP_CALLEE(VF_POP_fpx_mult, point, d, VF_ID(mult_data))
+__CPROVER_ensures(__CPROVER_return_value == 0 ==> VF_EC_PP_WF(*point))
+;
+#endif
+#if EC_PF_UNKPT_MULT_ALGO != EC_PF_UNKPT_MULT_ALGO_BIN
+#ifdef VF_ENFORCE_ec_point_proj_unkpt_mult_affine
+#define VF_G_unkpt_mult_affine	VF_EC_ENFORCED_GHOST
+#else
+#define VF_G_unkpt_mult_affine	VF_POP_CALLEE(VF_POP_unkpt_mult_affine, point, d, VF_ID(mult_data))
+#endif
+static inline int
+ec_point_proj_unkpt_mult_affine(ec_point_p point, ec_point_proj_unkpt_mult_data_t *mult_data, bn_p d, ec_curve_p curve)
+__CPROVER_requires(VF_EC_POINT_OK(point) && VF_EC_POINT_WF(*point) && VF_ECBN_R(d) && VF_CURVE_IN_EC(curve))
+__CPROVER_requires(__CPROVER_r_ok(mult_data, sizeof(ec_point_proj_unkpt_mult_data_t)))
+__CPROVER_assigns(VF_EC_POINT_FRAME(point))
+VF_G_unkpt_mult_affine
+__CPROVER_ensures(__CPROVER_return_value == 0 ==> VF_EC_POINT_WF(*point))
+#ifdef VF_ENFORCE_ec_point_proj_unkpt_mult_affine
+__CPROVER_ensures(__CPROVER_return_value == 0 ==> (vf_n_pop == 2 && vf_pop_fn == VF_POP_export_affine && vf_pop_b == VF_ID(point)))
+#endif
+;
+static inline int
+ec_point_proj_unkpt_mult(ec_point_proj_p point, ec_point_proj_unkpt_mult_data_t *mult_data, bn_p d, ec_curve_p curve)
+__CPROVER_requires(VF_EC_PP_OK(point) && VF_EC_PP_WF(*point) && VF_ECBN_R(d) && VF_CURVE_IN_EC(curve))
+__CPROVER_requires(__CPROVER_r_ok(mult_data, sizeof(ec_point_proj_unkpt_mult_data_t)))
+__CPROVER_assigns(VF_EC_PP_FRAME(point))
+VF_POP_CALLEE(VF_POP_unkpt_mult, point, d, VF_ID(mult_data))
+__CPROVER_ensures(__CPROVER_return_value == 0 ==> VF_EC_PP_WF(*point))
+;
+/* builds the table of multiples of `point`: writes the table only */
+static inline int
+ec_point_proj_unkpt_mult_precompute_affine(size_t wnd_bits, ec_point_p point, ec_curve_p curve,
+    ec_point_proj_unkpt_mult_data_t *mult_data)
+__CPROVER_requires(__CPROVER_r_ok(point, sizeof(ec_point_t)) && VF_EC_POINT_WF(*point) && VF_CURVE_IN_EC(curve))
+__CPROVER_requires(__CPROVER_rw_ok(mult_data, sizeof(ec_point_proj_unkpt_mult_data_t)))
+__CPROVER_assigns(__CPROVER_object_upto(mult_data, sizeof(ec_point_proj_unkpt_mult_data_t)))
+VF_POP_CALLEE(VF_POP_unkpt_pre, point, mult_data, wnd_bits)
+;
+#endif
+/* res := ad * a + bd * b (affine in, affine out) */
+static inline int
+ec_point_proj_twin_mult(ec_point_p a, bn_p ad, ec_point_p b, bn_p bd, ec_curve_p curve, ec_point_p res)
+__CPROVER_requires(__CPROVER_r_ok(a, sizeof(ec_point_t)) && VF_EC_POINT_WF(*a) && VF_ECBN_R(ad))
+__CPROVER_requires(__CPROVER_r_ok(b, sizeof(ec_point_t)) && VF_EC_POINT_WF(*b) && VF_ECBN_R(bd) && VF_CURVE_IN_EC(curve))
+__CPROVER_requires(VF_EC_POINT_OK(res) && VF_EC_POINT_WF(*res))
+__CPROVER_assigns(VF_EC_POINT_FRAME(res))
+VF_POP_CALLEE(VF_POP_twin_mult, a, b, VF_ID(res))
+__CPROVER_ensures(__CPROVER_return_value == 0 ==> VF_EC_POINT_WF(*res))
+;
+
+/* ================================================================== C02: curve validation ==== */
+/* accepted with EC_CURVE_FLAG_A_M3  ==>  a == p - 3 (as numbers): the shortcut formulas of
+ * add / dbl / check_affine / restore_y agree with curve->a.  (The converse is not required: a curve
+ * with a == p - 3 and no flag uses the general formulas.)  Also: a, b, Gx, Gy >= p are rejected;
+ * accepted ==> no internal computation failed; writes only *warnings. */
+static inline int
+ec_curve_validate(ec_curve_p curve, int *warnings)
+__CPROVER_requires(VF_CURVE_IN_EC(curve) && (warnings == NULL || __CPROVER_w_ok(warnings, sizeof(int))))
+__CPROVER_assigns(warnings != NULL: *warnings)
+VF_EC_ENFORCED_GHOST
+__CPROVER_ensures((__CPROVER_return_value == 0 && 0 != (EC_CURVE_FLAG_A_M3 & curve->flags) && vf_bn_val(curve->p) >= 3) ==>
+    vf_bn_val(curve->a) == vf_bn_val(curve->p) - 3)
+__CPROVER_ensures((vf_bn_val(curve->a) >= vf_bn_val(curve->p) || vf_bn_val(curve->b) >= vf_bn_val(curve->p) ||
+    vf_bn_val(curve->G.x) >= vf_bn_val(curve->p) || vf_bn_val(curve->G.y) >= vf_bn_val(curve->p)) ==> __CPROVER_return_value != 0)
+__CPROVER_ensures(__CPROVER_return_value == 0 ==> (vf_n_chk_affine == 1 && vf_st_chk_affine == 0 &&
+    vf_n_chk_scalar == 1 && vf_st_chk_scalar == 0 && vf_bn_val(curve->n) != vf_bn_val(curve->p)))
 ;
 
 #endif /* !VF_REPLAY */
